@@ -112,8 +112,7 @@ def compute_kek(c):
             sa = None
     c.raises("NotImplementedError", when=(sa is None))
     c.raises("ValueError", when=None)  # zero modulus, point not on the curve, private scalar out of range
-    c.raises("OverflowError", when=None, label="optional")
-    c.raises_only({"NotImplementedError", "ValueError", "OverflowError"})
+    c.raises_only({"NotImplementedError", "ValueError"})
     if sa is None:
         c.no_normal_return()
         return
@@ -149,8 +148,7 @@ def compute_kek_from_public_key(c):
             sa = None
     c.raises("NotImplementedError", when=(sa is None))
     c.raises("ValueError", when=None)
-    c.raises("OverflowError", when=None, label="optional")
-    c.raises_only({"NotImplementedError", "ValueError", "OverflowError"})
+    c.raises_only({"NotImplementedError", "ValueError"})
     if sa is None:
         c.no_normal_return()
         return
@@ -200,6 +198,8 @@ def compute_public_key(c):
             sa = None
     c.raises("NotImplementedError", when=(sa is None))
     c.raises("ValueError", when=None)
+    # a peer key whose key_length field is smaller than the curve coordinates makes ECDHKey.pack overflow (protect path only:
+    # the peer key comes from the domain controller, A-DC; not part of the untrusted-blob pipeline of C05)
     c.raises("OverflowError", when=None, label="optional")
     c.raises_only({"NotImplementedError", "ValueError", "OverflowError"})
     if sa is None:
@@ -254,8 +254,8 @@ def get_kek(c):
     c.raises("ValueError", when=z3.Or(is_pub_env, Z(sf["l0"]) != Z(kf["l0"])), label="not-authorized-or-wrong-l0")
     c.raises("ValueError", when=None)
     c.raises("NotImplementedError", when=None)
-    c.raises("OverflowError", when=None, label="optional")
-    c.raises_only({"ValueError", "NotImplementedError", "OverflowError"})
+    c.raises_only({"ValueError", "NotImplementedError"})
+    c.ghost_bound("kdf_calls", 65)  # C05: at most 63 chain steps + the group private key + the KEK itself
     l2k = L2K(alg_t, base, g_t, Z(sf["l0"]), Z(kf["l1"]), Z(kf["l2"]))
     c.assume(blen(l2k) == 64)
     kid_public = c.mod(kf["flags"], 2) == 1
@@ -295,7 +295,7 @@ def new_kek(c):
     c.assume(z3.And(Z(c.len(u16z(c, sf["domain_name"]))) < 2**32))
     c.raises("NotImplementedError", when=None)
     c.raises("ValueError", when=None)
-    c.raises("OverflowError", when=None, label="optional")
+    c.raises("OverflowError", when=None, label="optional")  # from compute_public_key (see there); protect path only
     c.raises_only({"ValueError", "NotImplementedError", "OverflowError"})
     public = c.mod(sf["flags"], 2) == 1
 
@@ -538,11 +538,12 @@ def decrypt_blob(c):
     key.ghost["base"] = base
     c.assume(valid_seed(c.I, alg_t, key, base))
     c.param("key", T.const(key))
-    errs = {"ValueError", "NotImplementedError", "OverflowError", "cryptography.exceptions.InvalidTag", "cryptography.hazmat.primitives.keywrap.InvalidUnwrap",
+    errs = {"ValueError", "NotImplementedError", "cryptography.exceptions.InvalidTag", "cryptography.hazmat.primitives.keywrap.InvalidUnwrap",
             "dpapi_ng._asn1:NotEnougData"}
     for e in errs:
         c.raises(e, when=None)
     c.raises_only(errs)
+    c.ghost_bound("kdf_calls", 65)
 
     def routed(r):
         """every byte that can influence the plaintext went through the two authenticated primitives, keyed as specified"""
